@@ -37,17 +37,17 @@ func (c15) ChildTimeout(tier string) time.Duration {
 
 func (c15) Thresholds(tier string) map[string]int64 {
 	return map[string]int64{
-		"inputs":                       250000,
-		"class:hostile":                100000,
-		"class:truncation":             50000,
-		"class:well-formed":            50000,
-		"results":                      80000,
-		"errors":                       80000,
-		"attributes-checked":           80000,
-		"invalid-utf8-inputs":          20000,
-		"edge-whitespace-inputs":       20000,
+		"inputs":                               250000,
+		"class:hostile":                        100000,
+		"class:truncation":                     50000,
+		"class:well-formed":                    50000,
+		"results":                              80000,
+		"errors":                               80000,
+		"attributes-checked":                   80000,
+		"invalid-utf8-inputs":                  20000,
+		"edge-whitespace-inputs":               20000,
 		"results-rechecked-after-later-parses": 80000,
-		"invalid-utf8-reached-the-text": 200,
+		"invalid-utf8-reached-the-text":        200,
 	}
 }
 
